@@ -288,7 +288,8 @@ def history_round_jobs(m, tier='quick'):
         for d1 in range(1, m.n):
             for d2 in range(1, m.n):
                 for d3 in range(1, m.n):
-                    quick = c == 0 and d1 != d2 and d3 not in (d1, d2) and compatible(m, d1, d2) and m.kinds[d2] == 'L'
+                    if d3 in (d1, d2): continue        # (the stubs tell the rounds apart by the destination of the first pending request: the guard's extra request must name a new destination)
+                    quick = c == 0 and d1 != d2 and compatible(m, d1, d2) and m.kinds[d2] == 'L'
                     job(id='C.%s.history2.c%d.d%d.d%d.d%d' % (m.name, c, d1, d2, d3), entry='step_history_rounds', key=[c, d1, d2, d2, d3], props=['C09', 'C01'], quick_for=['C09'], tier=tier if quick else 'thorough',
                         carriers=[r'R_<.*>::replayTransitions', r'R_<.*>::applyRequests', r'R_<.*>::processTransitions'], case_key='%s/two approved rounds/cfg=%d/%d,%d then %d' % (m.name, c, d1, d2, d3), **base)
                     job(id='C.%s.history2v.c%d.d%d.d%d.d%d' % (m.name, c, d1, d2, d3), entry='step_history_rounds', key=[c, d1, d2, d2, d3, 1], props=['C09', 'C04', 'C01'], quick_for=['C09', 'C04'], tier=tier if quick else 'thorough',
